@@ -296,8 +296,18 @@ class sptenmat:
         subs = None
         if self.subs.size > 0:
             tshape = np.array(self.tshape)
-            rdims = tt_ind2sub(tshape[self.rdims], self.subs[:, 0])
-            cdims = tt_ind2sub(tshape[self.cdims], self.subs[:, 1])
+            # A side without modes contributes no subscript columns
+            no_modes = np.empty((self.subs.shape[0], 0), dtype=int)
+            rdims = (
+                tt_ind2sub(tshape[self.rdims], self.subs[:, 0])
+                if self.rdims.size > 0
+                else no_modes
+            )
+            cdims = (
+                tt_ind2sub(tshape[self.cdims], self.subs[:, 1])
+                if self.cdims.size > 0
+                else no_modes
+            )
             subs = np.zeros(
                 (rdims.shape[0], rdims.shape[1] + cdims.shape[1]), dtype=int
             )
